@@ -24,6 +24,31 @@ def run(ctx):
             ctx.violation(dict(string_tags=dict(S='STRING[3]', T='SSTRING[2]'), history=res[0][-12:]), res[1])
             break
     ctx.coverage['string_tag_histories'] = nstr
+    # element indices that need the 16-bit and 32-bit forms of the element segment: a tag of 70000 elements, written and read back at
+    # 255/256, 32767/32768, 65535/65536 and the last element, by name and by address, by all three read services
+    big = dict(name='Big', ty='INT', scalar=False, n=70000, addr=(0x99, 1, 3), init=[('i', 0)] * 70000)
+    reqs, expect = [], {}
+    for k, idx in enumerate((0, 255, 256, 32767, 32768, 40000, 65535, 65536, 69999)):
+        v = 1000 + k
+        p = ('sym', 'big', idx) if k % 2 else ('num', 0x99, 1, 3, idx)
+        reqs.append(('write' if k % 3 else 'writef', p, 195, 1) + (([('i', v)],) if k % 3 else (0, [('i', v)])))
+        expect[idx] = v
+    for idx, v in expect.items():
+        reqs.append(('read', ('sym', 'BIG', idx), 1))
+        reqs.append(('readf', ('num', 0x99, 1, 3, idx), 1, 0))
+    obs, _ = L.run_impl((488, [big], reqs))
+    import struct
+    for r, (b, _h) in zip(reqs, obs):
+        if b is None or b[2] != 0:
+            ctx.violation(dict(tag='Big=INT[70000]', request=L.describe_req(r), reply=b.hex() if b else 'raised'),
+                          'a request addressing an element inside a large tag was refused'); break
+        if r[0] in ('read', 'readf'):
+            idx = r[1][2] if r[1][0] == 'sym' else r[1][4]
+            got = struct.unpack('<h', b[6:8])[0]
+            if got != expect[idx]:
+                ctx.violation(dict(tag='Big=INT[70000]', request=L.describe_req(r), got=got, most_recently_written=expect[idx]),
+                              'reading an element of a large tag does not return the value most recently written to it'); break
+    ctx.coverage['large_tag_requests'] = len(reqs)
     L.logix_check(ctx, 'C03', gen(ctx),
                   rule='seeded random tag configurations (1-5 tags, all 11 scalar CIP types, scalar and array, auto-allocated in the Message '
                        'Router or at explicit @class/instance/attribute, several sharing an instance) x histories of 1-25 (thorough 1-40) requests '
